@@ -4,8 +4,8 @@
 // passing -- no panic, no out-of-bounds access, no endless loop -- and the dispatch on the first byte follows
 // RFC 9000 section 12.4 Table 3 (frames) / section 17.2, 17.3 (packets).
 //
-//   * `FrameMut` decode (frame/mod.rs, `frames!` macro: `FrameDecoder::decode_frame`), any first byte, <= 24 bytes
-//   * `ProtectedPacket::decode` (packet/mod.rs: `PacketDecoder::decode_packet`), any first byte, <= 26 bytes,
+//   * `FrameMut` decode (frame/mod.rs, `frames!` macro: `FrameDecoder::decode_frame`), any first byte, <= 16 bytes
+//   * `ProtectedPacket::decode` (packet/mod.rs: `PacketDecoder::decode_packet`), any first byte, <= 24 bytes,
 //     fixed-length destination-connection-id validator (`usize`, the validator used by the default id format)
 //
 // Both are level=bounded (input length); the per-frame reference-parser agreement harnesses live next to the
@@ -80,16 +80,16 @@ fn real_frame_kind(f: &FrameMut) -> u8 {
     }
 }
 
-//@ harness props=C05 tier=thorough level=bounded timeout=1500 bound="arbitrary input of <= 24 bytes, any first byte"
+//@ harness props=C05 tier=thorough level=bounded timeout=1500 bound="arbitrary input of <= 16 bytes, any first byte"
 //@ fn FrameDecoder::decode_frame
 //@ fn FrameDecoder::handle_extension_frame
 //@ fn Frame::decode_mut
 #[kani::proof]
-#[kani::unwind(27)]
+#[kani::unwind(19)]
 fn vq_c05_frame_decode_total() {
-    let mut bytes: [u8; 24] = kani::any();
+    let mut bytes: [u8; 16] = kani::any();
     let len: usize = kani::any();
-    kani::assume(len <= 24);
+    kani::assume(len <= 16);
     let first = bytes[0];
     let r = DecoderBufferMut::new(&mut bytes[..len]).decode::<FrameMut>();
     match &r {
@@ -106,11 +106,11 @@ fn vq_c05_frame_decode_total() {
     // 12.4: "An endpoint MUST treat the receipt of a frame of unknown type as a connection error"
     assert!(len == 0 || first >= 0x40 || rfc_frame_kind(first) != 0 || r.is_err(), "C05/frame.tot/unknown_single_byte_type_rejected");
     assert!(len != 0 || r.is_err(), "C05/frame.tot/empty_input_rejected");
-    kani::cover!(r.is_ok() && len == 24, "reach:ok_on_longest_input");
-    kani::cover!(r.is_err() && len == 24, "reach:err_on_longest_input");
+    kani::cover!(r.is_ok() && len == 16, "reach:ok_on_longest_input");
+    kani::cover!(r.is_err() && len == 16, "reach:err_on_longest_input");
     kani::cover!(matches!(&r, Ok((Frame::Ack(_), _))), "reach:ack");
     kani::cover!(matches!(&r, Ok((Frame::Stream(_), _))), "reach:stream");
-    kani::cover!(matches!(&r, Ok((Frame::Padding(p), _)) if p.length == 24), "reach:all_padding");
+    kani::cover!(matches!(&r, Ok((Frame::Padding(p), _)) if p.length == 16), "reach:all_padding");
     kani::cover!(matches!(&r, Ok((Frame::MtuProbingComplete(_), _))), "reach:extension_frame");
     kani::cover!(true, "reach:end");
 }
@@ -143,7 +143,7 @@ fn rfc_packet_kind(first_byte: u8, version: u32) -> u8 {
 
 const DCID_LEN: usize = 4;
 
-//@ harness props=C05 tier=thorough level=bounded timeout=1500 bound="arbitrary datagram of <= 26 bytes, any first byte; short-header destination connection id length fixed to 4"
+//@ harness props=C05 tier=thorough level=bounded timeout=1500 bound="arbitrary datagram of <= 24 bytes, any first byte; short-header destination connection id length fixed to 4"
 //@ fn ProtectedPacket::decode
 //@ fn PacketDecoder::decode_packet
 //@ fn HeaderDecoder::finish_long
@@ -154,9 +154,9 @@ const DCID_LEN: usize = 4;
 #[kani::proof]
 #[kani::unwind(10)]
 fn vq_c05_packet_decode_total() {
-    let mut bytes: [u8; 26] = kani::any();
+    let mut bytes: [u8; 24] = kani::any();
     let len: usize = kani::any();
-    kani::assume(len <= 26);
+    kani::assume(len <= 24);
     let first = bytes[0];
     let version = ((bytes[1] as u32) << 24) | ((bytes[2] as u32) << 16) | ((bytes[3] as u32) << 8) | (bytes[4] as u32);
     let addr = SocketAddress::default();
@@ -191,6 +191,6 @@ fn vq_c05_packet_decode_total() {
     kani::cover!(matches!(&r, Ok((ProtectedPacket::Handshake(_), _))), "reach:handshake");
     kani::cover!(matches!(&r, Ok((ProtectedPacket::Retry(_), _))), "reach:retry");
     kani::cover!(matches!(&r, Ok((ProtectedPacket::Initial(_), rest)) if !rest.is_empty()), "reach:coalesced_packet_follows");
-    kani::cover!(r.is_err() && len == 26, "reach:err_on_longest_input");
+    kani::cover!(r.is_err() && len == 24, "reach:err_on_longest_input");
     kani::cover!(true, "reach:end");
 }
